@@ -11,8 +11,8 @@ P = {
    note="Does not decide the interleaving argument; value/schedule-dependent reordering (Retry.Max=0, abandoned broker) has no structural signature and is not covered.",
    technique="SSA path-counting, must-precede and guard queries; who-may-store/send tables (custom go/ssa analyzer)"),
  "C03": dict(claimed=True,
-   text="Structural necessary conditions decided on every path of consumer.go: deliver only under offset >= child.offset and advance to offset+1; provenance of every field of the delivered message; fetch request built from the same subscription; acks WaitGroup pairing and Add/feed/Wait/handle order; every failed subscription redispatched exactly once; tabled senders/writers.",
-   note="Offset arithmetic of legacy v1 wrappers, partial-trailing handling, fetch-size doubling and progress under faults are numeric/liveness questions and not covered.",
+   text="Structural necessary conditions decided on every path of consumer.go: deliver only under offset >= child.offset and advance to offset+1; provenance of every field of the delivered message; fetch request built from the same subscription; acks WaitGroup pairing and Add/feed/Wait/handle order; every failed subscription redispatched exactly once; tabled senders/writers; a truncated-record response grows the fetch size or, at the configured maximum, reports ErrMessageTooLarge and steps over the record.",
+   note="Offset arithmetic of legacy v1 wrappers, the overflow clamp of the doubled fetch size and progress under faults in general are numeric/liveness questions and not covered.",
    technique="SSA guard (dominating-predicate) and provenance matching, exactly-once path counting per loop iteration"),
  "C11": dict(claimed=True,
    text="Decided on every path of parseResponse: the append of a batch's messages is guarded by not-control and by the read-committed filter (and skipped only when transactional AND aborted), unfiltered under ReadUncommitted; parseRecords precedes the filters; aborted set insert/pop/delete guards; index sorted by FirstOffset; isolation level sent in the request.",
